@@ -124,6 +124,9 @@ pub struct Outcome {
     /// enabled sets seen before each step (for enumeration)
     pub enabled_sets: Vec<Vec<usize>>,
     pub infeasible: bool,
+    /// threads that were still blocked a few seconds after an abandoned execution was released to
+    /// run freely (they are detached, not joined): a section of the code under test never returns
+    pub hung: Vec<usize>,
     pub panics: Vec<(usize, String)>,
 }
 
@@ -144,10 +147,12 @@ pub fn run_execution(
     let n = bodies.len();
     let ctl = Ctl::new(n, parks, obs);
     let panics: Arc<Mutex<Vec<(usize, String)>>> = Arc::new(Mutex::new(vec![]));
+    let (done_tx, done_rx) = std::sync::mpsc::channel::<usize>();
     let mut handles = vec![];
     for (t, body) in bodies.into_iter().enumerate() {
         let c = Arc::clone(&ctl);
         let pn = Arc::clone(&panics);
+        let done_tx = done_tx.clone();
         handles.push(
             std::thread::Builder::new()
                 .name(format!("sched-worker-{t}"))
@@ -168,6 +173,7 @@ pub fn run_execution(
                     }
                     verif_hooks::leave();
                     c.done(t);
+                    let _ = done_tx.send(t);
                 })
                 .expect("spawn"),
         );
@@ -244,17 +250,50 @@ pub fn run_execution(
         drop(g);
         after_step(schedule.len() - 1, &snapshot);
     }
+    let mut hung = vec![];
     if infeasible {
-        let mut g = ctl.inner.lock().unwrap();
-        g.free_run = true;
-        ctl.cv.notify_all();
-    }
-    for h in handles {
-        let _ = h.join();
+        {
+            let mut g = ctl.inner.lock().unwrap();
+            g.free_run = true;
+            ctl.cv.notify_all();
+        }
+        // give the released threads a few seconds; whoever is still blocked then is detached
+        let mut finished = vec![false; n];
+        let deadline = Instant::now() + Duration::from_secs(4);
+        loop {
+            {
+                let g = ctl.inner.lock().unwrap();
+                for t in 0..n {
+                    if g.status[t] == Status::Done {
+                        finished[t] = true;
+                    }
+                }
+            }
+            if finished.iter().all(|f| *f) {
+                break;
+            }
+            let now = Instant::now();
+            if now >= deadline {
+                break;
+            }
+            let _ = done_rx.recv_timeout((deadline - now).min(Duration::from_millis(200)));
+        }
+        for (t, h) in handles.into_iter().enumerate() {
+            if finished[t] {
+                let _ = h.join();
+            } else {
+                hung.push(t);
+                drop(h);
+            }
+        }
+    } else {
+        for h in handles {
+            let _ = h.join();
+        }
     }
     let log = ctl.inner.lock().unwrap().log.clone();
     let panics = panics.lock().unwrap().clone();
-    Outcome { schedule, arrived, log, enabled_sets, infeasible, panics }
+    Outcome { schedule, arrived, log, enabled_sets, infeasible, hung, panics }
 }
 
 /// Enumerate every schedule of a configuration, depth first in lexicographic order, one execution
